@@ -1,4 +1,5 @@
 import SwcVerif.Props.C05
+import SwcVerif.Props.C05Gen
 #print axioms C05.machine_eq_pre
 #print axioms C05.sort_ok
 #print axioms C05.sort_perm
@@ -10,3 +11,6 @@ import SwcVerif.Props.C05
 #print axioms C05.sort_columns
 #print axioms C05.sort_again
 #print axioms C05.isSorted_iff
+#print axioms RefineSort.sort_refines
+#print axioms C05.generated_sort_ok
+#print axioms C05.generated_eq_model
